@@ -27,6 +27,9 @@ pub enum Act {
     PeerAckAll,
     /// acknowledge only data, not a FIN
     PeerAckDataOnly,
+    /// acknowledge every data packet received except the newest one (as if that one - typically a
+    /// size probe - had been lost), and no FIN
+    PeerAckButNewestData,
     /// FIN with the next expected sequence number
     PeerFin,
     /// FIN `k` sequence numbers ahead
@@ -61,17 +64,22 @@ pub struct HsCfg {
     pub silent_initiator: bool,
     pub script: Vec<Act>,
     pub tail: Us,
+    /// the real socket's transport refuses a datagram now and then (send returns Pending):
+    /// (probability per send, shortest, longest blockage). The script waits out a blockage before
+    /// its next step, so that only the endpoint's own emissions are delayed, not its processing.
+    pub pending: Option<(f64, Us, Us)>,
 }
 
 impl HsCfg {
     pub fn describe(&self) -> String {
         format!(
-            "{} sock[{}] role={} peer_isn={} silent_initiator={} script={:?} tail={}us",
+            "{} sock[{}] role={} peer_isn={} silent_initiator={} pending={:?} script={:?} tail={}us",
             if self.ipv6 { "v6" } else { "v4" },
             self.sock.describe(),
             if self.real_initiates { "real-connects" } else { "real-accepts" },
             self.peer_isn,
             self.silent_initiator,
+            self.pending,
             self.script,
             self.tail
         )
@@ -149,6 +157,22 @@ pub async fn hs_scenario(world: Arc<World>, cfg: HsCfg, case_seed: u64) -> HsOut
     let mut peer_off: u64 = 0;
     for act in &cfg.script {
         peer.drain(|_, _, _| true);
+        if cfg.pending.is_some() {
+            loop {
+                // let the endpoint run first: at the instant a blockage ends it retries, and may
+                // be refused again
+                world.step().await;
+                let u = world.net.blocked_until(ra);
+                let now = world.now();
+                // strictly in the past: the retry at the instant the blockage ended has happened
+                // (and, had it been refused, the blockage would have been extended)
+                if u < now {
+                    break;
+                }
+                world.sleep_us(u - now).await;
+                peer.drain(|_, _, _| true);
+            }
+        }
         match act {
             Act::PeerData => {
                 let len = 1 + (peer_sent as usize * 37) % 400;
@@ -178,6 +202,16 @@ pub async fn hs_scenario(world: Arc<World>, cfg: HsCfg, case_seed: u64) -> HsOut
                     if peer.contiguous() >= f {
                         p.ack = peer.rseq(f - 1);
                     }
+                }
+                peer.send(p);
+            }
+            Act::PeerAckButNewestData => {
+                let mut p = peer.state_pkt(1 << 20, false);
+                // highest data index received
+                let newest = peer.received.keys().next_back().copied();
+                if let Some(nw) = newest {
+                    let upto = peer.contiguous().min(nw - 1);
+                    p.ack = if upto >= 0 { peer.rseq(upto) } else { peer.rseq(0).wrapping_sub(1) };
                 }
                 peer.send(p);
             }
@@ -303,7 +337,12 @@ pub async fn hs_scenario(world: Arc<World>, cfg: HsCfg, case_seed: u64) -> HsOut
 
 pub fn run_hs(case_seed: u64, cfg: &HsCfg, keep_snapshots: bool) -> CaseRun<HsOutcome> {
     let cfg2 = cfg.clone();
-    run_case(case_seed, Duration::from_secs(600), keep_snapshots, FaultPlan::perfect(case_seed), move |w| hs_scenario(w, cfg2, case_seed))
+    let mut plan = FaultPlan::perfect(case_seed);
+    if let Some((p, lo, hi)) = cfg.pending {
+        plan.pending_prob = p;
+        plan.pending_for = (lo, hi);
+    }
+    run_case(case_seed, Duration::from_secs(600), keep_snapshots, plan, move |w| hs_scenario(w, cfg2, case_seed))
 }
 
 /// C10 variant: the same walks, longer, with hostile peer datagrams mixed in.
@@ -341,8 +380,62 @@ pub fn generate(case_seed: u64) -> HsCfg {
     let silent_initiator = !real_initiates && rng.chance(0.12);
     // prefix: reach a state
     let mut script: Vec<Act> = Vec::new();
-    match rng.below(8) {
+    match rng.below(12) {
         0 => {} // established, nothing exchanged
+        9 | 10 | 11 => {
+            // as 8, with sizes aligned to the segment grid so that the buffer is cut completely and
+            // the size probe is the last segment, behind ordinary ones, when the application closes
+            // (whole segments before, exactly one probe's worth at the end; Nagle off)
+            sock.disable_nagle = true;
+            sock.link_mtu = None;
+            let ipv4 = !ipv6;
+            let minp = sock.min_payload(ipv4);
+            let maxp = sock.max_payload(ipv4);
+            let probe = (minp + (maxp - minp) / 2 + 1).min(maxp);
+            for _ in 0..rng.range(0, 4) {
+                script.push(Act::Write(minp * rng.range(1, 2) as usize));
+                script.push(Act::PeerAckAll);
+            }
+            script.push(Act::Write(minp * rng.range(0, 4) as usize + probe));
+            script.push(if rng.chance(0.5) { Act::Shutdown } else { Act::DropWriter });
+            if rng.chance(0.4) {
+                script.push(Act::DropReader);
+            }
+            script.push(Act::PeerAckButNewestData);
+            for _ in 0..rng.range(2, 5) {
+                script.push(Act::Advance(*rng.pick(&[250u64, 450, 900, 2000]) * MS));
+                if rng.chance(0.5) {
+                    script.push(Act::PeerAckButNewestData);
+                }
+            }
+            script.push(Act::PeerAckAll);
+            script.push(Act::Advance(500 * MS));
+            script.push(Act::PeerAckAll);
+        }
+        8 => {
+            // the application closes with a size probe and at least one segment before it
+            // unacknowledged; the peer then acknowledges everything but the probe (lost on a path
+            // that does not carry it) and the probe's timer has to expire before the FIN can go
+            for _ in 0..rng.range(0, 3) {
+                script.push(Act::Write(rng.range(300, 1200) as usize));
+                script.push(Act::PeerAckAll);
+            }
+            script.push(Act::Write(rng.range(1100, 3200) as usize));
+            script.push(if rng.chance(0.5) { Act::Shutdown } else { Act::DropWriter });
+            if rng.chance(0.4) {
+                script.push(Act::DropReader);
+            }
+            script.push(Act::PeerAckButNewestData);
+            for _ in 0..rng.range(1, 4) {
+                script.push(Act::Advance(*rng.pick(&[250u64, 450, 900, 2000]) * MS));
+                if rng.chance(0.5) {
+                    script.push(Act::PeerAckButNewestData);
+                }
+            }
+            if rng.chance(0.6) {
+                script.push(Act::PeerAckAll);
+            }
+        }
         7 => {
             // the application closes while a retransmission timeout is being recovered from:
             // several segments outstanding, the timer fires (once or more), then the close
@@ -429,5 +522,13 @@ pub fn generate(case_seed: u64) -> HsCfg {
         silent_initiator,
         script,
         tail: *rng.pick(&[300u64, 1500, 4000]) * MS,
+        pending: {
+            let mut a = Prng::new(case_seed ^ 0xB10C_4ED);
+            if !silent_initiator && a.chance(0.2) {
+                Some((*a.pick(&[0.05, 0.2, 0.5]), MS, *a.pick(&[1u64, 5, 30, 120]) * MS))
+            } else {
+                None
+            }
+        },
     }
 }
